@@ -6,7 +6,10 @@
 
   queueing.worker (locals `expected_version`, `consistency_time`, both None at the start of a worker):
       timeout = max(idle_timeout, consistency_time - loop.time() if consistency_time is not None else 0)
-      raw_event = await wait_for(backlog.get(), timeout)        -- timeout & empty backlog: the worker exits
+      raw_event = await wait_for(backlog.get(), timeout)        -- timeout & empty backlog: the worker exits;
+                                                                -- timeout & non-empty backlog: backlog.get_nowait(),
+                                                                -- i.e. an ordinary iteration (fix d07cc0b)
+      if raw_event is EOS: break                                -- the watcher is exiting: end of this stream's life
       if expected_version is not None and expected_version == get_version(raw_event):
           expected_version = None; consistency_time = None
       if backlog.empty(): pressure.clear()
@@ -14,6 +17,11 @@
       if newer_patch_version is not None and settings.persistence.consistency_timeout:
           expected_version = newer_patch_version
           consistency_time = loop.time() + settings.persistence.consistency_timeout
+
+  queueing._wait_for_depletion (watcher exit, fix f370f06): for every stream `pressure.set()`, then
+  `backlog.put(EOS)`: a processor sleeping in the barrier is woken like by any new arrival (an
+  *interrupted* sleep: handlers held back), the worker then dequeues EOS and exits. In the model the
+  marker is a `wake` of the sleeping iteration and the end of the step list.
 
   processing.process_resource_event / process_resource_causes:
       index_resource(...)                                        -- indexing
@@ -67,7 +75,8 @@ structure Iter where
   now : Int              -- `loop.time()` when the event was dequeued = when the processor starts
   dur : Nat               -- ticks the raw-event handlers take (the barrier is reached at `now + dur`)
   pressure : Bool         -- more events are queued when the barrier is reached (`pressure` is set)
-  wake : Option Nat       -- a further event arrives this many ticks after the barrier sleep began
+  wake : Option Nat       -- the pressure is raised this many ticks after the barrier sleep began: a further
+                          -- event arrives, or the exiting watcher sends its end-of-stream marker
   lag : Nat               -- lateness of a timed-out sleep (0 under virtual time)
   gone : Bool             -- the cause is GONE (a DELETED event)
   required : Bool         -- `changing_cause is not None` at the barrier
